@@ -247,7 +247,7 @@ fn parse(case: &str) -> Option<Case> {
     if semi < 3 || t.len() != semi + 5 {
         return None;
     }
-    if !matches!(t[1], "https" | "http" | "HTTPS") {
+    if !matches!(t[1], "https" | "http" | "HTTPS" | "https+ohttp" | "http+ohttps") {
         return None;
     }
     Some(Case {
@@ -549,12 +549,21 @@ async fn run_case<IO: Transport>(c: Case) -> String {
         Some(h) => h,
         None => return "bad-case".into(),
     };
-    let uri = format!("{}://{}:50051", c.scheme, host);
+    // `<scheme>+o<scheme2>`: endpoint URI with <scheme>, plus `Endpoint::origin(<scheme2>://…)`
+    let (scheme, origin) = match c.scheme.split_once("+o") {
+        Some((s, o)) => (s, Some(format!("{}://{}:50051", o, host))),
+        None => (c.scheme.as_str(), None),
+    };
+    let uri = format!("{}://{}:50051", scheme, host);
+    let with_origin = move |ep: Endpoint| match &origin {
+        Some(o) => ep.origin(o.parse().unwrap()),
+        None => ep,
+    };
     let mut cfg_state = "ok".to_string();
     let ep = if c.ops.len() == 1 && c.ops[0] == "auto" {
         // the entry point generated `connect` functions use
         match Endpoint::new(uri) {
-            Ok(e) => Some(e),
+            Ok(e) => Some(with_origin(e)),
             Err(e) => {
                 cfg_state = format!("err:{}", classify_cfg_err(&e));
                 None
@@ -567,9 +576,9 @@ async fn run_case<IO: Transport>(c: Case) -> String {
         };
         match build_client_cfg(&c.ops) {
             None => return "bad-case".into(),
-            Some(None) => Some(ep),
+            Some(None) => Some(with_origin(ep)),
             Some(Some(t)) => match ep.tls_config(t) {
-                Ok(e) => Some(e),
+                Ok(e) => Some(with_origin(e)),
                 Err(e) => {
                     cfg_state = format!("err:{}", classify_cfg_err(&e));
                     None
@@ -797,6 +806,10 @@ const CORPUS: &[&str] = &[
     "tls http good auto ; s1good plain - tcp",
     "tls HTTPS good notls ; s1good plain - tcp",
     "tls HTTPS good ca:ca1 ; s1good h2 - tcp",
+    // Endpoint::origin does not decide about TLS
+    "tls https+ohttp good notls ; s1good plain - tcp",
+    "tls https+ohttp good ca:ca1 ; s1good h2 - tcp",
+    "tls http+ohttps good ca:ca1 ; s1good plain - tcp",
     // https client against a plaintext server and the reverse
     "tls https good ca:ca1 h2:1 ; s1good plain - tcp",
     "tls https good ca:ca1 h2:1 ; s1good plain - duplex",
@@ -991,7 +1004,7 @@ pub fn generate(tier: &str, rng: &mut Rng) -> Vec<String> {
         }
     }
     // scheme x TLS configuration x server kind: the no-fallback clause
-    for scheme in ["https", "http", "HTTPS"] {
+    for scheme in ["https", "http", "HTTPS", "https+ohttp", "http+ohttps"] {
         for client in ["notls", "auto", "", "ca:ca1", "ca:ca1 h2:1", "ca:ca2 h2:1"] {
             for alpn in ["plain", "h2", "none"] {
                 for tr in TRANSPORTS {
@@ -1001,8 +1014,32 @@ pub fn generate(tier: &str, rng: &mut Rng) -> Vec<String> {
         }
     }
 
+    // thorough: the extended product, exhaustively (38 400 configurations)
+    if thorough {
+        for roots in ["ca:ca1", "ca:ca2", "", "cas:ca1+ca2", "ta:ca1"] {
+            for dom in ["dom:good", "dom:bad", "", "dom:other"] {
+                for urihost in ["good", "bad"] {
+                    for servercert in ["s1good", "s1bad", "s2good"] {
+                        for alpn in ["h2", "none", "http11", "h2last"] {
+                            for assume in ["h2:0", "h2:1"] {
+                                for sops in ["-", "ca:ca1", "ca:ca1+opt:1", "opt:1", "ca:ca2"] {
+                                    for id in ["", "id:c1", "id:c2", "id:c1chain"] {
+                                        for tr in ["tcp", "duplex"] {
+                                            let ops: Vec<String> = [roots, dom, id, assume].iter().map(|s| s.to_string()).collect();
+                                            out.push(format!("tls https {} {} ; {} {} {} {}", urihost, join_ops(&ops), servercert, alpn, sops, tr));
+                                        }
+                                    }
+                                }
+                            }
+                        }
+                    }
+                }
+            }
+        }
+    }
+
     // random builder-call sequences on both sides
-    let nrand = if thorough { 60000 } else { 4000 };
+    let nrand = if thorough { 250000 } else { 10000 };
     for _ in 0..nrand {
         let servercert = *rng.pick(&SERVER_CERTS);
         let aim_ok = rng.chance(3, 5);
@@ -1034,8 +1071,19 @@ pub fn generate(tier: &str, rng: &mut Rng) -> Vec<String> {
         } else {
             rng.pick(&SRV_OPS).to_string()
         };
-        let scheme = if rng.chance(1, 30) { "http" } else if rng.chance(1, 30) { "HTTPS" } else { "https" };
-        let tr = *rng.pick(&TRANSPORTS);
+        let scheme = if rng.chance(1, 30) {
+            *rng.pick(&["http", "http+ohttps"])
+        } else if rng.chance(1, 20) {
+            *rng.pick(&["HTTPS", "https+ohttp"])
+        } else {
+            "https"
+        };
+        // mostly the in-memory pipe in the big runs (loopback ports are a finite resource)
+        let tr = if thorough {
+            *rng.pick(&["tcp", "tcp-lazy", "duplex", "duplex", "duplex", "duplex", "duplex-lazy", "duplex-lazy"])
+        } else {
+            *rng.pick(&TRANSPORTS)
+        };
         out.push(format!("tls {} {} {} ; {} {} {} {}", scheme, urihost, join_ops(&ops), servercert, alpn, sops, tr).replace("  ", " "));
     }
 
